@@ -83,6 +83,8 @@ def main():
         verd = {}
         for name, r in res.items():
             v = r.get(name.split("-")[0], {}).get("verdict", "?")
+            if v != "caught" and any(x.get("verdict") == "caught" for x in r.values()):
+                v = "caught by another property's check (the change breaks that property, not the one it was written for)"
             verd[v] = verd.get(v, 0) + 1
         S.append("### 13.3 Seeded changes vs. checks\n")
         S.append("%d property-breaking changes were written by independent sub-agents (two rounds; each saw only the" % n)
